@@ -1,6 +1,7 @@
 """C01 — a call to a faked function reaches the fake from every address placement (x86-64 targets)."""
 from .common import *
 from .codewrite import *
+from .patches import check_protection as patches_check_protection
 
 PER_TARGET = True      # every rule below looks at one target configuration at a time (check.py may fork one worker per target)
 DECIDED = ("R1.1/R1.2: in every normal variant of every public install root, the bytes written at the function entry decode (independent "
@@ -36,44 +37,7 @@ def roots_and_roles(tm):
 
 
 def check_protection(ck, tm, rootname, variant, ev, dst, nbytes, role):
-    """R1.3: the closest preceding protection change covers the write (kernel rounds to pages)."""
-    prot = ev_before(variant, ev, lambda e: e.kind == "ffi" and e.name in PROTECT_FFI)
-    key = "%s/%s" % (tm.os, role)
-    if prot is None:
-        ck.ob("R1.3", key + "/no-protection-change", tm.target, False,
-              "%s write of %s bytes at %s in %s is not preceded by any protection change" % (role, fmt(nbytes.e), fmt(dst.e, 3), short(rootname)),
-              where(ev))
-        return
-    if prot.name == "mach2::vm::mach_vm_protect":
-        start, size = prot.args[1], prot.args[2]
-    else:
-        start, size = prot.args[0], prot.args[1]
-    P = bounds.find_page(start.e) or bounds.find_page(size.e) or leaf("page_size", 64)
-    w = tm.ptr_bits
-    pm1 = binop("sub", P, const(1, w), w)
-    cov_end = binop("and", binop("add", binop("add", start.e, size.e, w), pm1, w), not_(pm1), w)
-    wr_end = binop("add", dst.e, nbytes.e, w)
-    ok_lo, why_lo = bounds.prove_ge(dst.e, binop("and", start.e, not_(pm1), w), w, P)
-    ok_hi, why_hi = bounds.prove_ge(cov_end, wr_end, w, P)
-    helper = short(fn_of_event(prot))
-    k2 = "%s/%s/%s" % (tm.os, short(prot.name), "covers-write")
-    ck.ob("R1.3", k2, tm.target, ok_lo and ok_hi,
-          "protection change %s(start=%s, size=%s) in %s before the %s write of %s byte(s) at %s: start<=dst %s (%s); "
-          "page_up(start+size) >= dst+len %s (%s)%s" % (
-              short(prot.name), fmt(start.e, 4), fmt(size.e, 3), helper, role, fmt(nbytes.e), fmt(dst.e, 3),
-              "proved" if ok_lo else "NOT provable", why_lo, "proved" if ok_hi else "NOT provable", why_hi,
-              "" if ok_hi else " — counter-example class: the patch straddles a page boundary (page offset o with o + len > page size), "
-              "the second page keeps its old protection and the copy faults"),
-          where(prot), witness={"start": fmt(start.e, 6), "size": fmt(size.e, 6), "dst": fmt(dst.e, 6), "len": fmt(nbytes.e)})
-    # protection value must allow writing (and executing on non-macOS)
-    if prot.name != "mach2::vm::mach_vm_protect":
-        pv = prot.args[2]
-        if isinstance(pv, Int) and pv.is_const():
-            v = pv.cval()
-            need = 7 if tm.os == "linux" else 0x40
-            good = (v & 7) == 7 if tm.os == "linux" else v in (0x40, 0x80)
-            ck.ob("R1.3", "%s/%s/prot-value" % (tm.os, short(prot.name)), tm.target, good,
-                  "protection constant %#x %s read|write|execute" % (v, "includes" if good else "does NOT include"), where(prot))
+    return patches_check_protection(ck, "R1.3", tm, rootname, variant, ev, dst, nbytes, role)
 
 
 def run(ck, models, tier):
@@ -203,6 +167,14 @@ def run(ck, models, tier):
         if tm.arch != "arm" and g_.adt:
             release_rules(ck, tm, g_, "R1.9")
             restore_before_release(ck, tm, g_, "R1.9")
+        if tm.os == "macos":
+            # R1.3 (macOS): the trampoline is writable when it is written and executable afterwards
+            kw = _p.jit_window_obligations(ck, "R1.3", tm)
+            ck.floor("R1.3", "trampoline-writes-in-a-jit-write-window", kw, 6, tm.target)
+        if tm.arch != "arm":
+            # R1.3 (trampoline): the mapping is requested writable and executable
+            km = mapping_request_obligations(ck, "R1.3", tm)
+            ck.floor("R1.3", "mapping-requests-checked", km, 1, tm.target)
         k10 = flush_obligations(ck, tm, ("R1.10", "R1.10"), install=True, restore=False)
         ck.floor("R1.10", "install-writes-checked-for-flush", k10, 6, tm.target)
     if any(tm.arch == "x86_64" for tm in models):
